@@ -28,7 +28,7 @@ theorem insertLoop_cfg (kp a : Nat) : ∀ (f : Nat) (s s' : Col),
       have := ih (triggerReindex s) s' h
       exact this
 
-theorem write_cfg (s s' : Col) (k : Key) (op : Option (Nat × Val)) (h : write s k op = .ok s') :
+theorem write_cfg (s s' : Col) (k : Key) (op : Option (Nat × Nat × Val)) (h : write s k op = .ok s') :
     s'.cfg = s.cfg := by
   unfold write at h
   cases hs : searchAll s k with
@@ -38,7 +38,7 @@ theorem write_cfg (s s' : Col) (k : Key) (op : Option (Nat × Val)) (h : write s
     cases op with
     | none => simp only at h; injection h with h; subst h; rfl
     | some tv =>
-      obtain ⟨tier, v⟩ := tv
+      obtain ⟨tier, ext, v⟩ := tv
       simp only at h
       unfold writeNew at h
       simp only at h
@@ -63,19 +63,19 @@ theorem write_cfg (s s' : Col) (k : Key) (op : Option (Nat × Val)) (h : write s
         subst h
         cases j <;> rfl
     | some tv =>
-      obtain ⟨tier', v⟩ := tv
+      obtain ⟨tier', ext, v⟩ := tv
       unfold writeExisting at h
       simp only at h
       by_cases hti : Address.size_tier a = tier'
       · simp only [hti, if_true] at h
         injection h with h; subst h; rfl
       · simp only [hti, if_false] at h
-        have hm : (moveValue s k a tier' v).2.cfg = s.cfg := by
+        have hm : (moveValue s k a tier' ext v).2.cfg = s.cfg := by
           unfold moveValue
           simp only
           rw [Col.alloc_snd]
           rfl
-        cases hins : (moveValue s k a tier' v).2.current.insert k.pre (moveValue s k a tier' v).1
+        cases hins : (moveValue s k a tier' ext v).2.current.insert k.pre (moveValue s k a tier' ext v).1
             (if j = 0 then some i else none) with
         | written t =>
           rw [hins] at h
@@ -142,8 +142,9 @@ theorem reopen_cfg (s : Col) : (reopen s).cfg = s.cfg := by
 /-! ## actions -/
 
 inductive Action where
-  /-- `Operation::Set` of a value stored in size tier `tier` -/
-  | set (k : Key) (tier : Nat) (v : Val)
+  /-- `Operation::Set` of a value stored in size tier `tier` with `ext` continuation slots
+  (`ext = 0`: a one-slot value; in the multipart tier `ext + 1` is the number of parts) -/
+  | set (k : Key) (tier ext : Nat) (v : Val)
   /-- `Operation::Dereference` -/
   | del (k : Key)
   /-- one `process_reindex` batch -/
@@ -156,7 +157,7 @@ inductive Action where
   | relaunch
 
 def stepA (s : Col) : Action → Res
-  | .set k tier v => write s k (some (tier, v))
+  | .set k tier ext v => write s k (some (tier, ext, v))
   | .del k => write s k none
   | .reindex => reindexBatch s
   | .enact => .ok (enactDrop s)
@@ -169,7 +170,7 @@ def runA (s : Col) : List Action → Res
 
 /-- the abstract map after one action -/
 def specStep (m : Key → Option Val) : Action → Key → Option Val
-  | .set k _ v => upd m k (some v)
+  | .set k _ _ v => upd m k (some v)
   | .del k => upd m k none
   | _ => m
 
@@ -179,7 +180,7 @@ def spec (m : Key → Option Val) : List Action → Key → Option Val
 
 /-- keys of the history lie in `U`; size tiers are real ones -/
 def ActOK (U : Key → Prop) : Action → Prop
-  | .set k tier _ => U k ∧ tier < 256
+  | .set k tier _ _ => U k ∧ tier < 256
   | .del k => U k
   | _ => True
 
@@ -190,7 +191,7 @@ def AllBounded (s : Col) : List Action → Prop
 
 theorem stepA_cfg (s s' : Col) (a : Action) (h : stepA s a = .ok s') : s'.cfg = s.cfg := by
   cases a with
-  | set k tier v => exact write_cfg s s' k _ h
+  | set k tier ext v => exact write_cfg s s' k _ h
   | del k => exact write_cfg s s' k _ h
   | reindex => exact reindexBatch_cfg s s' h
   | enact => simp only [stepA] at h; injection h with h; subst h; exact enactDrop_cfg s
@@ -204,11 +205,11 @@ theorem stepA_ok {U : Key → Prop} {s s' : Col} {m : Key → Option Val} (hU : 
     (ha : ActOK U a) (h : stepA s a = .ok s') (hB : Bounded s') : Good U s' (specStep m a) := by
   have hx : ExactCur s := Or.inl hex
   cases a with
-  | set k tier v =>
-    exact write_ok hU hG k ha.1 (some (tier, v))
-      (fun t v' e => by injection e with e; injection e with e1 _; rw [← e1]; exact ha.2) hgrow h hB
+  | set k tier ext v =>
+    exact write_ok hU hG k ha.1 (some (tier, ext, v))
+      (fun t e' v' e => by injection e with e; injection e with e1 _; rw [← e1]; exact ha.2) hgrow h hB
   | del k =>
-    exact write_ok hU hG k ha none (fun t v' e => by cases e) hgrow h hB
+    exact write_ok hU hG k ha none (fun t e' v' e => by cases e) hgrow h hB
   | reindex => exact (reindexBatch_ok hU hG hx h hB).1
   | enact =>
     simp only [stepA] at h
@@ -298,7 +299,7 @@ theorem runA_ne_panic {U : Key → Prop} (hU : Univ U) : ∀ (acts : List Action
     | panic =>
       have hx : ExactCur s := Or.inl hex
       cases a with
-      | set k tier v => exact write_ne_panic hG hx k _ h1
+      | set k tier ext v => exact write_ne_panic hG hx k _ h1
       | del k => exact write_ne_panic hG hx k _ h1
       | reindex => exact reindexBatch_ne_panic s h1
       | enact => simp [stepA] at h1
@@ -312,7 +313,7 @@ theorem init_good (U : Key → Prop) (cfg : Cfg) (b : Nat) (h1 : 16 ≤ b) (h2 :
   have hval : ∀ x, (Col.init cfg b).valAt x = none := fun _ => rfl
   have htail : ∀ x, (Col.init cfg b).tailAt x = none := fun _ => rfl
   have htier : ∀ t, (Col.init cfg b).tier t = Tier.init := fun _ => rfl
-  refine ⟨⟨?_, ?_, ?_, ?_, ?_, fun _ => rfl⟩, ⟨?_, ?_, ?_, ?_, ?_, ?_⟩, ?_⟩
+  refine ⟨⟨?_, ?_, ?_, ?_, ?_, fun _ => rfl⟩, ⟨fun tier => ⟨?_, ?_, ?_, ?_, ?_, ?_, ?_⟩, ?_⟩, ?_⟩
   · intro t ht
     have : t = Table.new b := by simpa [Col.tables, Col.init] using ht
     rw [this]; exact TableWF.new b h1 h2
@@ -320,15 +321,17 @@ theorem init_good (U : Key → Prop) (cfg : Cfg) (b : Nat) (h1 : 16 ≤ b) (h2 :
   · intro a tl ha; rw [htail] at ha; cases ha
   · intro a1 a2 tl ha; rw [htail] at ha; cases ha
   · intro t0 rest hol; simp [Col.init] at hol
-  · intro tier off _ _ _; exact htail _
-  · intro a tl ha; rw [htail] at ha; cases ha
-  · intro tier; rw [htier]; simp [Tier.init]
-  · intro tier off ho; rw [htier] at ho; simp [Tier.init] at ho
-  · intro tier _; rw [htier]; simp [Tier.init]
-  · intro tier off _ _ h3 h4
+  · intro off _ _ _; exact htail _
+  · rw [htier]; simp [Tier.init, ownedOf]
+  · intro off ho; rw [htier] at ho; simp [Tier.init, ownedOf] at ho
+  · intro _; rw [htier]; simp [Tier.init]
+  · intro off _ _ h3 h4
     rw [htier] at h4
     simp only [Tier.init] at h4
     omega
+  · rw [htier]; simp [Tier.init]
+  · intro hd _ hm; rw [htier] at hm; simp [Tier.init] at hm
+  · intro a tl ha; rw [htail] at ha; cases ha
   · intro k _ v
     constructor
     · intro h; cases h
